@@ -4,6 +4,7 @@ import (
 	"fmt"
 	"math/big"
 	"os"
+	"path/filepath"
 	"strings"
 	"sync"
 	"time"
@@ -354,4 +355,93 @@ func serialsOf(rw *repoWorld, names ...string) []*big.Int {
 		out = append(out, rw.probes[n].Cert.SerialNumber)
 	}
 	return out
+}
+
+// midSwapFault: the swap of a refresh fails BETWEEN its steps (the repository model only has a swap that fails before anything
+// is moved; this is the other half, driven by a real fault that the harness causes while the refresh is parked at a hook of
+// LevelDbStore.Update):
+//   - "movedAside": the old database has been moved aside, the new one is not yet in place, and cannot be moved in (its
+//     directory vanishes). Afterwards the store of the location is missing. C09: lookups in it are errors, now and after any
+//     number of further passes - never "not revoked" for a certificate that both the old and the new list name.
+//   - "movedIn": the new database is in place but cannot be opened again. C20: the live store has not been deleted - a new
+//     instance on the same work_dir (the fault gone) finds one complete accepted list there.
+func midSwapFault(c *vk.Ctx, at string) int {
+	rw, err := newRepoWorld(true, "verify", false, c.Seed*71)
+	if err != nil {
+		c.Infra("repo world: %v", err)
+	}
+	defer rw.close()
+	rw.serve("good", []string{"x", "z"})
+	next := rw.run(func() { rw.w.HandshakeTimeout(rw.chains["driver"], 120*time.Second) })
+	for s := next(); s != "" && s != "TIMEOUT"; s = next() {
+	}
+	if res, _ := rw.probe(2 * time.Second); func() bool { got, ok := listedOf(res); return !ok || got != "xz" }() {
+		c.Drift("mid-swap-fault:first-load-did-not-take-effect")
+		return 0
+	}
+	rw.serve("good", []string{"y", "z"})
+	next = rw.run(func() { rw.w.RefreshAll() })
+	site := ""
+	for site = next(); site != "" && site != "TIMEOUT" && site != "ldb.update."+at; site = next() {
+	}
+	if site != "ldb.update."+at {
+		c.Drift("mid-swap-fault:refresh-did-not-reach:" + at + ":" + site)
+		return 0
+	}
+	live := ""
+	for _, st := range rw.w.Listing().Stores {
+		live = filepath.Join(rw.w.WorkDir, st)
+	}
+	rep := map[string]any{"fault_at": at, "listing_at_fault": rw.w.Listing()}
+	switch at {
+	case "movedAside":
+		for _, t := range rw.w.Listing().Temps {
+			os.RemoveAll(filepath.Join(rw.w.WorkDir, t))
+		}
+	case "movedIn":
+		os.Remove(filepath.Join(live, "LOCK"))
+		os.Mkdir(filepath.Join(live, "LOCK"), 0o755)
+	}
+	for s := next(); s != "" && s != "TIMEOUT"; s = next() {
+	}
+	c.Eval("mid-swap-fault|" + at)
+	switch at {
+	case "movedAside":
+		for pass := 0; pass < 3; pass++ {
+			res, _ := rw.probe(3 * time.Second)
+			rep[fmt.Sprintf("lookups_after_%d_further_passes", pass)] = res
+			if r := res["z"]; r.Verdict == "accept" {
+				c.Violation("validator:disk:store-missing-after-failed-swap:listed-accepted:further-passes="+fmt.Sprint(pass),
+					fmt.Sprintf("the swap of a refresh failed after the old database had been moved aside (the new one could not be moved in): the store of the location is missing; a certificate that the old and the new list both name was answered 'not revoked' after %d further passes", pass), rep)
+				break
+			}
+			done := make(chan struct{})
+			go func() { defer close(done); rw.w.RefreshAll() }()
+			select {
+			case <-done:
+			case <-time.After(90 * time.Second):
+				c.Drift("mid-swap-fault:further-pass-never-returned")
+				return 1
+			}
+		}
+	case "movedIn":
+		os.Remove(filepath.Join(live, "LOCK"))
+		rep["listing_after_failed_swap"] = rw.w.Listing()
+		if len(rw.w.Listing().Stores) == 0 {
+			c.Violation("disk:live-store-deleted:swap-failed-at-reopen", "the swap of a refresh failed when the database that had just been moved in was opened again; afterwards the store directory of the location is gone from work_dir", rep)
+			return 1
+		}
+		rw.serve("garbage", nil)
+		if err := rw.w.Restart(); err != nil {
+			c.Drift("mid-swap-fault:restart:" + err.Error())
+			return 1
+		}
+		rw.w.HandshakeTimeout(rw.chains["driver"], 60*time.Second)
+		res, _ := rw.probe(3 * time.Second)
+		rep["lookups_of_the_next_instance"] = res
+		if got, ok := listedOf(res); !ok || (got != "yz" && got != "xz") {
+			c.Violation("disk:live-store-lost:swap-failed-at-reopen", fmt.Sprintf("the swap of a refresh failed at its last step (the database in place could not be opened again); the next instance on the same work_dir should find one complete accepted list there ({yz}, which was moved in, or {xz}), its lookups answer {%s} (ok=%v)", got, ok), rep)
+		}
+	}
+	return 1
 }
